@@ -256,7 +256,7 @@ func crCases(c *core.Ctx) ([]json.RawMessage, error) {
 	}
 	// ---- G. reference cycles in every position, root registered under its own name
 	{
-		body := "SPECIFICATION Spec\nCONSTANTS\n  N = 3\n  MaxRoot = 1\n  MaxOther = 1\n  Ring = FALSE\nINVARIANTS Theorem Emit\nCHECK_DEADLOCK FALSE\n"
+		body := "SPECIFICATION Spec\nCONSTANTS\n  N = 3\n  MaxRoot = 1\n  MaxOther = 1\n  Ring = FALSE\n  ModesUsed = {\"plain\", \"optional\", \"nullable\", \"array\"}\n  FatTypes = 0\nINVARIANTS Theorem Emit\nCHECK_DEADLOCK FALSE\n"
 		n := 0
 		res, err := tlc.Run(tlc.Opts{Module: "TypeGraph", Cfg: "TypeGraph_3_1_1.cfg", Workers: 8, Files: map[string][]byte{"TypeGraph_3_1_1.cfg": []byte(body)}, OnLine: func(l string) {
 			var cs tgCase
@@ -283,6 +283,31 @@ func crCases(c *core.Ctx) ([]json.RawMessage, error) {
 			return nil, err
 		}
 		c.AddTLC("TypeGraph_3_1_1.cfg", res)
+		// CycleGraph.tla: every combination of one mention per type (any position that fits its kind) and one in the root
+		ncg := 0
+		cg, err := tlc.Run(tlc.Opts{Module: "CycleGraph", Cfg: "CycleGraph.cfg", Workers: 8, OnLine: func(l string) {
+			var r struct {
+				Root, A, B, C string
+				Cyclic        bool
+			}
+			if json.Unmarshal([]byte(l), &r) != nil || !r.Cyclic {
+				return
+			}
+			ncg++
+			if !c.Thorough() && (ncg+int(c.Seed))%3 != 0 {
+				return
+			}
+			crAdd(&out, seen, crCase{Entry: "project", Text: []byte(r.Root), Types: map[string]string{"@a": r.A, "@b": r.B, "@c": r.C}, Self: ncg%7 == 0, Src: "CycleGraph"})
+		}})
+		cg.Cleanup()
+		if err != nil {
+			return nil, err
+		}
+		if err := cg.MustOK(); err != nil {
+			return nil, err
+		}
+		c.AddTLC("CycleGraph.cfg", cg)
+		c.Set("cyclegraph_cyclic_projects", ncg)
 		cyc := []struct {
 			root  string
 			types map[string]string
